@@ -27,13 +27,20 @@ func verifCheckInv(u *Url) { verifCheckInvT(u, defaultSchemeTable) }
 
 // verifCheckInvT: the invariants with special-ness and default ports as configured in table t.
 func verifCheckInvT(u *Url, t []schemeEntry) {
+	if v := verifCheckInvViolation(u, t); v != "" {
+		vnd.Fail(v)
+	}
+}
+
+// verifCheckInvViolation returns "" when u satisfies every clause of the invariant, else the first violated clause.
+func verifCheckInvViolation(u *Url, t []schemeEntry) string {
 	sc := u.Scheme()
 	if len(sc) == 0 || !isLowerAlpha(sc[0]) {
-		vnd.Fail("scheme does not start with a lowercase ASCII letter")
+		return "scheme does not start with a lowercase ASCII letter"
 	}
 	for i := 1; i < len(sc); i++ {
 		if !isSchemeTail(sc[i]) {
-			vnd.Fail("scheme contains a character outside alnum + - . (lowercase)")
+			return "scheme contains a character outside alnum + - . (lowercase)"
 		}
 	}
 	dport, special := tableLookup(t, sc)
@@ -42,48 +49,48 @@ func verifCheckInvT(u *Url, t []schemeEntry) {
 	pn := u.Pathname()
 	if special {
 		if !hasHost {
-			vnd.Fail("special scheme without a host")
+			return "special scheme without a host"
 		}
 		if sc != "file" && u.Hostname() == "" {
-			vnd.Fail("special non-file scheme with an empty host")
+			return "special non-file scheme with an empty host"
 		}
 		if opaque || len(pn) == 0 || pn[0] != '/' {
-			vnd.Fail("special scheme without a path starting with '/'")
+			return "special scheme without a path starting with '/'"
 		}
 	}
 	if opaque && hasHost {
-		vnd.Fail("opaque path together with a host")
+		return "opaque path together with a host"
 	}
 	if u.Username() != "" || u.Password() != "" || u.Port() != "" {
 		if u.Hostname() == "" {
-			vnd.Fail("credentials or port with an empty or null host")
+			return "credentials or port with an empty or null host"
 		}
 		if sc == "file" {
-			vnd.Fail("credentials or port on a file URL")
+			return "credentials or port on a file URL"
 		}
 	}
 	if p := u.Port(); p != "" {
 		if len(p) > 5 || (len(p) > 1 && p[0] == '0') {
-			vnd.Fail("port is not a canonical decimal")
+			return "port is not a canonical decimal"
 		}
 		for i := 0; i < len(p); i++ {
 			if p[i] < '0' || p[i] > '9' {
-				vnd.Fail("port is not decimal")
+				return "port is not decimal"
 			}
 		}
 		v := decimalValue(p)
 		if v > 65535 {
-			vnd.Fail("port above 65535")
+			return "port above 65535"
 		}
 		if special && dport != "" && decimalValue(dport) == v {
-			vnd.Fail("the scheme's default port is serialized")
+			return "the scheme's default port is serialized"
 		}
 	}
 	// components contain no code point their percent-encode set excludes
 	for _, s := range []string{u.Username(), u.Password()} {
 		for i := 0; i < len(s); i++ {
 			if specUserinfoSet(rune(s[i])) {
-				vnd.Fail("userinfo contains a code point of the userinfo percent-encode set")
+				return "userinfo contains a code point of the userinfo percent-encode set"
 			}
 		}
 	}
@@ -91,25 +98,25 @@ func verifCheckInvT(u *Url, t []schemeEntry) {
 	if len(hn) > 0 && hn[0] != '[' {
 		for i := 0; i < len(hn); i++ {
 			if special && forbiddenDomainByte(hn[i]) || !special && forbiddenHostByte(hn[i]) || hn[i] > 0x7E {
-				vnd.Fail("host contains a forbidden host/domain code point")
+				return "host contains a forbidden host/domain code point"
 			}
 		}
 	}
 	for i := 0; i < len(pn); i++ {
 		if opaque && specC0Set(rune(pn[i])) || !opaque && specPathSet(rune(pn[i])) {
-			vnd.Fail("path contains a code point of its percent-encode set")
+			return "path contains a code point of its percent-encode set"
 		}
 	}
 	q := u.Query()
 	for i := 0; i < len(q); i++ {
 		if special && specSpecialQuerySet(rune(q[i])) || !special && specQuerySet(rune(q[i])) {
-			vnd.Fail("query contains a code point of its percent-encode set")
+			return "query contains a code point of its percent-encode set"
 		}
 	}
 	f := u.Fragment()
 	for i := 0; i < len(f); i++ {
 		if specFragmentSet(rune(f[i])) {
-			vnd.Fail("fragment contains a code point of the fragment percent-encode set")
+			return "fragment contains a code point of the fragment percent-encode set"
 		}
 	}
 	// serialization: printable ASCII; a space only inside an opaque path
@@ -118,7 +125,7 @@ func verifCheckInvT(u *Url, t []schemeEntry) {
 	spaces := 0
 	for i := 0; i < len(h); i++ {
 		if h[i] < 0x20 || h[i] > 0x7E {
-			vnd.Fail("serialization contains a byte outside printable ASCII")
+			return "serialization contains a byte outside printable ASCII"
 		}
 		if h[i] == 0x20 {
 			spaces++
@@ -131,7 +138,7 @@ func verifCheckInvT(u *Url, t []schemeEntry) {
 		}
 	}
 	if spaces != pnSpaces || (spaces > 0 && !opaque) {
-		vnd.Fail("serialization contains a space outside an opaque path")
+		return "serialization contains a space outside an opaque path"
 	}
 	// composition identities
 	e := u.Protocol()
@@ -150,7 +157,7 @@ func verifCheckInvT(u *Url, t []schemeEntry) {
 	}
 	e += pn
 	if len(h) < len(e) || h[:len(e)] != e {
-		vnd.Fail("Href is not protocol + authority + pathname ...")
+		return "Href is not protocol + authority + pathname ..."
 	}
 	rest := h[len(e):]
 	s, hs := u.Search(), u.Hash()
@@ -158,23 +165,178 @@ func verifCheckInvT(u *Url, t []schemeEntry) {
 	// rendered as "" by the search/hash getters, as the standard defines them
 	okRest := rest == s+hs || (s == "" && rest == "?"+hs) || (hs == "" && rest == s+"#") || (s == "" && hs == "" && rest == "?#")
 	if !okRest {
-		vnd.Fail("Href is not ... + search + hash")
+		return "Href is not ... + search + hash"
 	}
 	want := u.Hostname()
 	if u.Port() != "" {
 		want += ":" + u.Port()
 	}
 	if u.Host() != want {
-		vnd.Fail("Host is not Hostname[:Port]")
+		return "Host is not Hostname[:Port]"
 	}
 	h2 := u.Href(true)
 	if u.fragment == nil {
 		if h2 != h {
-			vnd.Fail("Href(true) differs although there is no fragment")
+			return "Href(true) differs although there is no fragment"
 		}
 	} else if h2+"#"+*u.fragment != h {
-		vnd.Fail("Href(true) is not Href(false) without the fragment")
+		return "Href(true) is not Href(false) without the fragment"
 	}
+	return ""
+}
+
+// invHoldsViolation is a textual copy of verifCheckInvViolation under a name that does not make its
+// branches solver obligations: it is used to ASSUME the invariant of a symbolic pre-state (InvStep).
+func invHoldsViolation(u *Url, t []schemeEntry) string {
+	sc := u.Scheme()
+	if len(sc) == 0 || !isLowerAlpha(sc[0]) {
+		return "scheme does not start with a lowercase ASCII letter"
+	}
+	for i := 1; i < len(sc); i++ {
+		if !isSchemeTail(sc[i]) {
+			return "scheme contains a character outside alnum + - . (lowercase)"
+		}
+	}
+	dport, special := tableLookup(t, sc)
+	hasHost := u.host != nil
+	opaque := u.OpaquePath()
+	pn := u.Pathname()
+	if special {
+		if !hasHost {
+			return "special scheme without a host"
+		}
+		if sc != "file" && u.Hostname() == "" {
+			return "special non-file scheme with an empty host"
+		}
+		if opaque || len(pn) == 0 || pn[0] != '/' {
+			return "special scheme without a path starting with '/'"
+		}
+	}
+	if opaque && hasHost {
+		return "opaque path together with a host"
+	}
+	if u.Username() != "" || u.Password() != "" || u.Port() != "" {
+		if u.Hostname() == "" {
+			return "credentials or port with an empty or null host"
+		}
+		if sc == "file" {
+			return "credentials or port on a file URL"
+		}
+	}
+	if p := u.Port(); p != "" {
+		if len(p) > 5 || (len(p) > 1 && p[0] == '0') {
+			return "port is not a canonical decimal"
+		}
+		for i := 0; i < len(p); i++ {
+			if p[i] < '0' || p[i] > '9' {
+				return "port is not decimal"
+			}
+		}
+		v := decimalValue(p)
+		if v > 65535 {
+			return "port above 65535"
+		}
+		if special && dport != "" && decimalValue(dport) == v {
+			return "the scheme's default port is serialized"
+		}
+	}
+	// components contain no code point their percent-encode set excludes
+	for _, s := range []string{u.Username(), u.Password()} {
+		for i := 0; i < len(s); i++ {
+			if specUserinfoSet(rune(s[i])) {
+				return "userinfo contains a code point of the userinfo percent-encode set"
+			}
+		}
+	}
+	hn := u.Hostname()
+	if len(hn) > 0 && hn[0] != '[' {
+		for i := 0; i < len(hn); i++ {
+			if special && forbiddenDomainByte(hn[i]) || !special && forbiddenHostByte(hn[i]) || hn[i] > 0x7E {
+				return "host contains a forbidden host/domain code point"
+			}
+		}
+	}
+	for i := 0; i < len(pn); i++ {
+		if opaque && specC0Set(rune(pn[i])) || !opaque && specPathSet(rune(pn[i])) {
+			return "path contains a code point of its percent-encode set"
+		}
+	}
+	q := u.Query()
+	for i := 0; i < len(q); i++ {
+		if special && specSpecialQuerySet(rune(q[i])) || !special && specQuerySet(rune(q[i])) {
+			return "query contains a code point of its percent-encode set"
+		}
+	}
+	f := u.Fragment()
+	for i := 0; i < len(f); i++ {
+		if specFragmentSet(rune(f[i])) {
+			return "fragment contains a code point of the fragment percent-encode set"
+		}
+	}
+	// serialization: printable ASCII; a space only inside an opaque path
+	h := u.Href(false)
+	vnd.Observe("href", h)
+	spaces := 0
+	for i := 0; i < len(h); i++ {
+		if h[i] < 0x20 || h[i] > 0x7E {
+			return "serialization contains a byte outside printable ASCII"
+		}
+		if h[i] == 0x20 {
+			spaces++
+		}
+	}
+	pnSpaces := 0
+	for i := 0; i < len(pn); i++ {
+		if pn[i] == 0x20 {
+			pnSpaces++
+		}
+	}
+	if spaces != pnSpaces || (spaces > 0 && !opaque) {
+		return "serialization contains a space outside an opaque path"
+	}
+	// composition identities
+	e := u.Protocol()
+	if hasHost {
+		e += "//"
+		if u.Username() != "" || u.Password() != "" {
+			e += u.Username()
+			if u.Password() != "" {
+				e += ":" + u.Password()
+			}
+			e += "@"
+		}
+		e += u.Host()
+	} else if !opaque && len(pn) > 1 && pn[0] == '/' && pn[1] == '/' {
+		e += "/."
+	}
+	e += pn
+	if len(h) < len(e) || h[:len(e)] != e {
+		return "Href is not protocol + authority + pathname ..."
+	}
+	rest := h[len(e):]
+	s, hs := u.Search(), u.Hash()
+	// modulo a bare '?' / '#': an empty-but-present query/fragment is serialized by Href but
+	// rendered as "" by the search/hash getters, as the standard defines them
+	okRest := rest == s+hs || (s == "" && rest == "?"+hs) || (hs == "" && rest == s+"#") || (s == "" && hs == "" && rest == "?#")
+	if !okRest {
+		return "Href is not ... + search + hash"
+	}
+	want := u.Hostname()
+	if u.Port() != "" {
+		want += ":" + u.Port()
+	}
+	if u.Host() != want {
+		return "Host is not Hostname[:Port]"
+	}
+	h2 := u.Href(true)
+	if u.fragment == nil {
+		if h2 != h {
+			return "Href(true) differs although there is no fragment"
+		}
+	} else if h2+"#"+*u.fragment != h {
+		return "Href(true) is not Href(false) without the fragment"
+	}
+	return ""
 }
 
 // VerifC04InvParse: invariants after parsing (absolute contexts) and after resolution.
@@ -274,13 +436,111 @@ func VerifC04InvCustomSchemes() {
 	}
 }
 
+// symbolicRecord builds a URL record directly (not through the parser) from small shapes; every
+// symbolic byte is arbitrary, the invariant is assumed afterwards.
+func symbolicRecord() *Url {
+	u := defaultParser.NewUrl()
+	schemes := []string{"http", "https", "ws", "file", "a", "ftp"}
+	u.scheme = schemes[vnd.Pick(len(schemes))]
+	switch vnd.Pick(3) {
+	case 1:
+		u.username = vnd.Str(1)
+	case 2:
+		u.username = vnd.Str(1)
+		u.password = vnd.Str(1)
+	}
+	switch vnd.Pick(6) {
+	case 0: // null host
+	case 1:
+		u.host = new(string)
+	case 2:
+		h := "h" + vnd.Str(1)
+		u.host = &h
+	case 3:
+		h := "1.2.3.4"
+		u.host = &h
+	case 4:
+		h := "[::1]"
+		u.host = &h
+	case 5:
+		h := vnd.Str(1)
+		u.host = &h
+	}
+	switch vnd.Pick(3) {
+	case 1:
+		p := vnd.StrOver(vnd.Len(2), "0189")
+		u.port = &p
+	case 2:
+		p := "65535"
+		u.port = &p
+	}
+	switch vnd.Pick(4) {
+	case 0:
+		u.path.setOpaque(vnd.Str(vnd.Len(2)))
+	case 1: // empty segment list
+	case 2:
+		u.path.addSegment(vnd.Str(vnd.Len(2)))
+	case 3:
+		u.path.addSegment(vnd.Str(vnd.Len(1)))
+		u.path.addSegment(vnd.Str(vnd.Len(2)))
+	}
+	switch vnd.Pick(3) {
+	case 1:
+		u.query = new(string)
+	case 2:
+		q := vnd.Str(1)
+		u.query = &q
+	}
+	switch vnd.Pick(3) {
+	case 1:
+		u.fragment = new(string)
+	case 2:
+		f := vnd.Str(1)
+		u.fragment = &f
+	}
+	return u
+}
+
+// VerifC04InvStep: one inductive step. From ANY record of the small shapes above that satisfies the
+// invariant, one operation (nine setters or a resolution) with a window argument preserves it. Together
+// with InvParse this extends the invariant to histories of any length over records of that size. A
+// counterexample is reported only if its pre-state is reachable through the public API (it equals the
+// parse of its own serialization, and the violation reproduces from there); otherwise the pre-state is
+// counted as unconfirmed (the invariant is then not inductive for it - detection power lost, no alarm).
+func VerifC04InvStep() {
+	pre := symbolicRecord()
+	vnd.Assume(invHoldsViolation(pre, defaultSchemeTable) == "")
+	vnd.Cover("inductive-pre-state", true)
+	href := pre.Href(false)
+	op := vnd.Pick(10)
+	arg := vnd.Str(vnd.Len(vnd.Param("C04.KStep", 1, 2)))
+	post := applyOp(pre, op, arg)
+	v := verifCheckInvViolation(post, defaultSchemeTable)
+	if v == "" {
+		return
+	}
+	// confirm through the public API
+	r, err := Parse(href)
+	if err != nil || r.Href(false) != href {
+		vnd.Cover("unconfirmed-inductive", true)
+		return
+	}
+	r = applyOp(r, op, arg)
+	if w := verifCheckInvViolation(r, defaultSchemeTable); w != "" {
+		vnd.Observe("pre", href)
+		vnd.Fail("inductive step, confirmed from the parse of the pre-state: " + w)
+	}
+	vnd.Cover("unconfirmed-inductive", true)
+}
+
 func VerifC04InvOps1() { invOps(1, vnd.Param("C04.KOps1", 2, 3), len(startURLs)) }
-func VerifC04InvOps2() { invOps(2, vnd.Param("C04.KOps2", 1, 2), vnd.Param("C04.Starts2", 8, 18)) }
-func VerifC04InvOps3() { invOps(3, vnd.Param("C04.KOps3", 0, 1), vnd.Param("C04.Starts3", 4, 18)) }
+func VerifC04InvOps2() { invOps(2, vnd.Param("C04.KOps2", 1, 2), vnd.Param("C04.Starts2", 8, 8)) }
+func VerifC04InvOps3() { invOps(3, vnd.Param("C04.KOps3", 0, 0), vnd.Param("C04.Starts3", 4, 4)) }
 
 func init() {
 	verifHarnesses["VerifC04InvParse"] = VerifC04InvParse
 	verifHarnesses["VerifC04InvOps1"] = VerifC04InvOps1
+	verifHarnesses["VerifC04InvStep"] = VerifC04InvStep
 	verifHarnesses["VerifC04InvCustomSchemes"] = VerifC04InvCustomSchemes
 	verifHarnesses["VerifC04InvLists"] = VerifC04InvLists
 	verifHarnesses["VerifC04InvOps2"] = VerifC04InvOps2
